@@ -99,8 +99,27 @@ def gen_spec(rng, feat):
         if len(keep) < n:
             spec["var_times"] = {c: [str(times[k]) for k in keep]}
             spec["interpolation"] = {c: rng.choice([0, 1, 2])}
+    pvs, evs = [], []
+    if feat.get("pvars"):
+        if rng.random() < 0.5:
+            pvs.append("ps")
+        if rng.random() < 0.5:
+            pvs += ["pw#%d" % i for i in range(rng.choice([2, 3]))]
+        evs = ["e%d" % i for i in range(rng.choice([0, 1, 1, 2]))]
+        spec["path_variables"], spec["extra_variables"] = pvs, evs
+        for v in pvs + evs:
+            if rng.random() < 0.6:
+                spec.setdefault("nominals", {})[v] = str(rng.choice([1, 2, F(1, 4), 10, 100]))
     if feat.get("bounds"):
         b = {}
+        for v in pvs + evs:
+            if rng.random() < 0.25:
+                continue
+            lo = None if rng.random() < 0.2 else str(-abs(dy(rng, 1, 9)))
+            hi = None if rng.random() < 0.2 else str(abs(dy(rng, 1, 9)))
+            if v == "ps" and rng.random() < 0.3:
+                lo = {"times": [str(t) for t in times], "values": [str(-abs(dy(rng, 1, 9))) for _ in times]}
+            b[v] = [lo, hi]
         for v in coll:
             r = rng.random()
             if r < 0.2:
@@ -125,6 +144,8 @@ def gen_spec(rng, feat):
                 return {"times": [str(t) for t in tt], "values": [str(base + dy(rng, 0, 2)) for _ in tt]}
             b[v] = [one(-1), one(+1)]
         spec["bounds"] = b
+    elif feat.get("pvars"):
+        spec.setdefault("bounds", {})
     if feat.get("history"):
         hs = []
         for m in range(E):
@@ -155,12 +176,15 @@ def gen_spec(rng, feat):
             if rng.random() < 0.3:
                 e = ["+", e, ["*", ["at", coll[0], n - 1], ["at", coll[0], n - 1]]]
             spec["objective"].append(e)
+            if evs and rng.random() < 0.6:
+                e = ["+", e, ["*", ["c", str(dy(rng, -3, 3))], ["ev", rng.choice(evs)]]]
+                spec["objective"][-1] = e
         if rng.random() < 0.7:
-            spec["path_objective"] = lin_expr(rng, coll + cins + pars + ders + (["der(%s)" % a for a in algs + ctls] if rng.random() < 0.5 else []))
+            spec["path_objective"] = lin_expr(rng, coll + cins + pars + ders + pvs + evs + (["der(%s)" % a for a in algs + ctls] if rng.random() < 0.5 else []))
     if feat.get("path"):
         pcs = []
         for _ in range(rng.randint(0, 2)):
-            e = lin_expr(rng, coll + cins + pars + (ders if rng.random() < 0.4 else []))
+            e = lin_expr(rng, coll + cins + pars + pvs + evs + (ders if rng.random() < 0.4 else []))
             pcs.append([e] + gen_con_bounds(rng, times, E))
         spec["path_constraints"] = pcs
         cons = []
@@ -170,6 +194,8 @@ def gen_spec(rng, feat):
                 e = ["+", ["at", rng.choice(coll), rng.randrange(n)], ["*", ["c", str(dy(rng, -2, 2))], ["at", rng.choice(coll), rng.randrange(n)]]]
                 lo = rng.choice(["-inf", str(-abs(dy(rng)))])
                 hi = rng.choice(["inf", str(abs(dy(rng)))])
+                if evs and rng.random() < 0.4:
+                    e = ["+", e, ["ev", rng.choice(evs)]]
                 cm.append([e, lo, hi])
             cons.append(cm)
         spec["constraints"] = cons
@@ -184,10 +210,15 @@ def gen_con_bounds(rng, times, E):
             return "inf" if sign > 0 else "-inf"
         if r < 0.55:
             return str(base)
-        if r < 0.8:
+        if r < 0.7:
             k0 = rng.choice([0, 0, 1]) if len(times) > 2 else 0
             tt = times[k0:]
             return {"times": [str(t) for t in tt], "values": [str(base + dy(rng, 0, 2)) for _ in tt]}
+        if r < 0.8:
+            # as many stamps as collocation times, but other stamps (e.g. one history sample in front)
+            d = (times[1] - times[0]) * F(rng.choice([1, 2, 3]), 4)
+            tt = [times[0] - d] + [t - (times[1] - times[0]) * F(1, 4) for t in times[1:]]
+            return {"times": [str(t) for t in tt], "values": [str(base + dy(rng, 0, 3)) for _ in tt]}
         return {"per_member": [str(base + m) for m in range(E)]}
     return [one(-1), one(+1)]
 
@@ -211,16 +242,39 @@ def observe(spec, probes=2, rng=None, mixins=()):
     lbg_f = [float(v) for v in np.array(ca.veccat(*lbg)).ravel()] if len(lbg) else []
     ubg_f = [float(v) for v in np.array(ca.veccat(*ubg)).ravel()] if len(ubg) else []
     # layout through the public API
-    idx = ca.Function("idx", [nlp["x"]], [ca.vertcat(*[p.state_vector(v, m)[0] for m in range(p.ensemble_size)
-                                                      for v in layout_names(spec)])] if layout_names(spec) else [ca.MX(0)])
-    lay = [int(round(float(v))) for v in np.array(idx(ca.DM(list(range(nx))))).ravel()] if layout_names(spec) else []
+    lnames = layout_entries(spec)
+    idx = ca.Function("idx", [nlp["x"]], [ca.vertcat(*[p.state_vector(v, m)[off] for m in range(p.ensemble_size)
+                                                      for v, off in lnames])] if lnames else [ca.MX(0)])
+    lay = [int(round(float(v))) for v in np.array(idx(ca.DM(list(range(nx))))).ravel()] if lnames else []
     return {"p": p, "nx": nx, "lbx": [float(v) for v in lbx], "ubx": [float(v) for v in ubx],
             "lbg": lbg_f, "ubg": ubg_f, "X": Xs, "gf": outs, "layout": [nx] + lay}
 
 
+def layout_entries(spec):
+    """(name, offset into its state vector) of the first entry of every scalar variable; the
+    components of a vector path variable follow each other, each with one entry per time"""
+    coll = spec.get("states", []) + spec.get("algebraics", []) + spec.get("controls", [])
+    n = len(spec["times"])
+    out = [(v, 0) for v in coll]
+    for nm in spec.get("path_variables", []):
+        if "#" in nm:
+            base, k = nm.split("#")
+            out.append((base, int(k) * n))
+        else:
+            out.append((nm, 0))
+    out += [(v, 0) for v in spec.get("extra_variables", [])]
+    out += [("initial_der(%s)" % s, 0) for s in spec.get("states", [])]
+    return out
+
+
 def layout_names(spec):
     coll = spec.get("states", []) + spec.get("algebraics", []) + spec.get("controls", [])
-    return coll + spec.get("path_variables", []) + spec.get("extra_variables", []) + \
+    pvs = []
+    for n in spec.get("path_variables", []):       # the components of a vector variable are one name
+        base = n.split("#")[0]
+        if base not in pvs:
+            pvs.append(base)
+    return coll + pvs + spec.get("extra_variables", []) + \
         ["initial_der(%s)" % s for s in spec.get("states", [])]
 
 
